@@ -631,6 +631,76 @@ pub fn c07_literal() {
         check!(got == Ok(Value::List(Arc::new((0..n as i64).map(|j| Value::Int(100 + j)).collect()))), "list literal holds the element values in order");
     }
 }
+/// C18 structure half: lists, maps (including keys rendering to the same text) and bytes through Value::json.
+pub fn c18_structure() {
+    use cel_interpreter::objects::{Key, Map};
+    let (shape, idx, bad): (u8, u8, u8) = (any(), any(), any());
+    crate::sym::assume(shape <= 2);
+    let failing = Value::Function(Arc::new("f".to_string()), None);
+    let skey = |s: &str| Key::String(Arc::new(s.to_string()));
+    match shape {
+        0 => {
+            crate::sym::assume(idx <= 3);
+            let items: Vec<Value> = (0..idx).map(|j| if j == bad { failing.clone() } else { Value::Int(j as i64) }).collect();
+            let v = Value::List(Arc::new(items));
+            let got = v.json();
+            if bad < idx {
+                check!(got.is_err(), "a list with a function value does not export");
+            } else {
+                let want = serde_json::Value::Array((0..idx).map(|j| serde_json::Value::from(j as i64)).collect());
+                check!(matches!(&got, Ok(d) if *d == want), "a list exports to the array of its elements in order");
+            }
+        }
+        1 => {
+            let sets: [Vec<Key>; 13] = [
+                vec![], vec![skey("a")], vec![Key::Int(1)], vec![Key::Uint(2)], vec![Key::Bool(true)], vec![skey("a"), skey("b")],
+                vec![Key::Int(1), skey("1")], vec![skey("1"), Key::Int(1)], vec![Key::Uint(1), Key::Int(1)], vec![Key::Bool(true), skey("true")],
+                vec![skey("a"), Key::Int(-3), Key::Bool(false)], vec![Key::Int(1), Key::Uint(1), skey("1")], vec![skey("x"), skey("1"), Key::Uint(1)],
+            ];
+            crate::sym::assume((idx as usize) < sets.len());
+            let keys = &sets[idx as usize];
+            let mut m = std::collections::HashMap::new();
+            for (j, k) in keys.iter().enumerate() {
+                m.insert(k.clone(), if j as u8 == bad { failing.clone() } else { Value::Int(j as i64) });
+            }
+            let v = Value::Map(Map { map: Arc::new(m) });
+            let got = v.json();
+            if (bad as usize) < keys.len() {
+                check!(got.is_err(), "a map with a function value does not export");
+            } else {
+                check!(got.is_ok(), "a map without function values exports, whatever its keys render to");
+                if let Ok(serde_json::Value::Object(o)) = &got {
+                    let texts: std::collections::BTreeSet<String> = keys.iter().map(|k| k.to_string()).collect();
+                    check!(o.len() == texts.len(), "one member per distinct key text");
+                    for (name, doc) in o.iter() {
+                        let from: Vec<i64> = keys.iter().enumerate().filter(|(_, k)| k.to_string() == *name).map(|(j, _)| j as i64).collect();
+                        check!(from.iter().any(|j| *doc == serde_json::Value::from(*j)), "each member is named by a key's text and holds that entry's document");
+                    }
+                } else {
+                    check!(false, "a map exports to an object");
+                }
+            }
+        }
+        _ => {
+            crate::sym::assume(idx <= 6);
+            let pool = [0xfbu8, 0xff, 0xbe, 0x00, 0x3e, 0x3f];
+            let bytes: Vec<u8> = pool[..idx as usize].to_vec();
+            let alphabet = b"ABCDEFGHIJKLMNOPQRSTUVWXYZabcdefghijklmnopqrstuvwxyz0123456789+/";
+            let mut want = String::new();
+            for chunk in bytes.chunks(3) {
+                let b = [chunk[0], *chunk.get(1).unwrap_or(&0), *chunk.get(2).unwrap_or(&0)];
+                let n = ((b[0] as u32) << 16) | ((b[1] as u32) << 8) | b[2] as u32;
+                want.push(alphabet[(n >> 18) as usize & 63] as char);
+                want.push(alphabet[(n >> 12) as usize & 63] as char);
+                want.push(if chunk.len() > 1 { alphabet[(n >> 6) as usize & 63] as char } else { '=' });
+                want.push(if chunk.len() > 2 { alphabet[n as usize & 63] as char } else { '=' });
+            }
+            let v = Value::Bytes(Arc::new(bytes));
+            let got = v.json();
+            check!(matches!(&got, Ok(serde_json::Value::String(s)) if *s == want), "bytes export to their standard (RFC 4648 section 4, padded) base64 text");
+        }
+    }
+}
 /// C13 literal half: an int / uint literal in either radix with an optional sign evaluates to the number
 /// it denotes, or is a compile error when that number does not fit.
 pub fn c13_literal() {
@@ -1013,6 +1083,7 @@ crate::replay_only! {
     #[kani::unwind(2)] c11_unsupported_nodes: "off", "same body", "same";
     #[kani::unwind(2)] c10_unsupported_nodes: "off", "same body", "same";
     #[kani::unwind(2)] c19_unsupported_nodes: "off", "same body", "same";
+    #[kani::unwind(2)] c18_structure: "off", "lists, maps and bytes through Value::json against the documented document shape", "lists of 0-3, thirteen key sets, byte strings of 0-6";
     #[kani::unwind(2)] c13_literal: "off", "int / uint literals of every sign, radix and magnitude through Program::compile + execute", "text built from the vector";
     #[kani::unwind(2)] c13_double_literal: "off", "eight double literal texts", "fixed list";
     #[kani::unwind(2)] c14_concat: "off", "Value + Value on lists / strings with controlled Arc sharing", "lengths 0-3, reference counts 1-4, x + x";
